@@ -144,6 +144,26 @@ def variants(src):
         if len(stmts) > 1:
             rst = [x for x in re.split(r"(?<=;)\n", ren) if x.strip()]
             out["renamed+reversed"] = "\n".join(reversed(rst)) + "\n"
+    # more orders: a few drawn with VERIF_SEED in the quick tier; in the thorough tier every permutation of up to five
+    # statements (120) and 120 drawn ones beyond
+    if len(stmts) > 2:
+        import itertools
+        import random
+        from vcommon import seed as vseed
+        rnd = random.Random(1000 + vseed())
+        if tier() == "thorough" and len(stmts) <= 5:
+            perms = list(itertools.permutations(range(len(stmts))))
+        else:
+            perms = []
+            for _ in range(120 if tier() == "thorough" else 4):
+                pm = list(range(len(stmts)))
+                rnd.shuffle(pm)
+                perms.append(tuple(pm))
+        for pm in perms:
+            key = "order-" + "".join("%x" % i for i in pm) if len(stmts) <= 16 else "order-%d" % (hash(pm) % 100000)
+            txt = "\n".join(stmts[i] for i in pm) + "\n"
+            if txt != src and key not in out:
+                out[key] = txt
     return out
 
 
@@ -163,35 +183,36 @@ MODULE_MATRIX = {
 
 
 def run_matrix(names=None, tag="matrix"):
+    import concurrent.futures as cf
     cli = build_cli()
     rdir = new_replay_dir("C07", tag)
     mism, detail = [], {}
-    for n, (src, want) in MATRIX.items():
-        if names and n not in names:
-            continue
-        res = run_cli(cli, {"main.oal": src}, workdir=os.path.join(rdir, n), timeout=30)
-        detail[n] = {"rc": res["rc"], "want": want, "tail": res["out"][-120:]}
-        if res["rc"] != want:
-            mism.append("%s: exit %s, expected %s" % (n, res["rc"], want))
-        vs = variants(src)
-        detail[n]["variants"] = {}
-        for vn, vsrc in vs.items():
-            r2 = run_cli(cli, {"main.oal": vsrc}, workdir=os.path.join(rdir, n + "." + vn.replace("+", "-")), timeout=30)
-            detail[n]["variants"][vn] = r2["rc"]
-            if r2["rc"] != res["rc"]:
-                mism.append("%s: verdict changes under '%s' (exit %s -> %s)" % (n, vn, res["rc"], r2["rc"]))
-    for n, (files, want) in MODULE_MATRIX.items():
-        if names and n not in names:
-            continue
+    progs = [(n, {"main.oal": src}, want) for n, (src, want) in MATRIX.items()] + [(n, files, want) for n, (files, want) in MODULE_MATRIX.items()]
+
+    def one(item):
+        n, files, want = item
+        mm = []
         res = run_cli(cli, files, workdir=os.path.join(rdir, n), timeout=30)
-        detail[n] = {"rc": res["rc"], "want": want, "tail": res["out"][-120:], "variants": {}}
+        d = {"rc": res["rc"], "want": want, "tail": res["out"][-120:], "variants": {}}
         if res["rc"] != want:
-            mism.append("%s: exit %s, expected %s" % (n, res["rc"], want))
+            mm.append("%s: exit %s, expected %s" % (n, res["rc"], want))
         for vn, vsrc in variants(files["main.oal"]).items():
-            r2 = run_cli(cli, dict(files, **{"main.oal": vsrc}), workdir=os.path.join(rdir, n + "." + vn.replace("+", "-")), timeout=30)
-            detail[n]["variants"][vn] = r2["rc"]
+            keep = not vn.startswith("order-")
+            r2 = run_cli(cli, dict(files, **{"main.oal": vsrc}), workdir=os.path.join(rdir, n + "." + vn.replace("+", "-")) if keep else None, timeout=30)
+            if keep:
+                d["variants"][vn] = r2["rc"]
+            else:
+                d["orders_tried"] = d.get("orders_tried", 0) + 1
             if r2["rc"] != res["rc"]:
-                mism.append("%s: verdict changes under '%s' (exit %s -> %s)" % (n, vn, res["rc"], r2["rc"]))
+                mm.append("%s: verdict changes under '%s' (exit %s -> %s)" % (n, vn, res["rc"], r2["rc"]))
+                if not keep:
+                    run_cli(cli, dict(files, **{"main.oal": vsrc}), workdir=os.path.join(rdir, n + "." + vn), timeout=30)
+        return n, d, mm
+    todo = [it for it in progs if not names or it[0] in names]
+    with cf.ThreadPoolExecutor(max_workers=max(2, (os.cpu_count() or 4) - 2)) as ex:
+        for n, d, mm in ex.map(one, todo):
+            detail[n] = d
+            mism += mm
     with open(os.path.join(rdir, "cmd"), "w") as f:
         f.write("#!/bin/sh\ncd /verif && exec ./check C07 --replay %s\n" % rdir)
     return mism, rdir, detail
